@@ -271,15 +271,17 @@ def helper_funs(module_ast, names):
             body = [b for b in node.body if not (isinstance(b, ast.Expr) and isinstance(b.value, ast.Constant))]
             if len(body) == 1 and rets:
                 a = node.args
-                params = [x.arg for x in a.args] + [x.arg for x in a.kwonlyargs]
+                pos = [x.arg for x in a.posonlyargs + a.args]
+                params = pos + [x.arg for x in a.kwonlyargs]
                 dfl = {}
-                for pn, d in zip([x.arg for x in a.args][len(a.args) - len(a.defaults):], a.defaults):
+                for pn, d in zip(pos[len(pos) - len(a.defaults):], a.defaults):
                     dfl[pn] = ("expr", d)
                 for x, d in zip(a.kwonlyargs, a.kw_defaults):
                     if d is not None:
                         dfl[x.arg] = ("expr", d)
                 henv[node.name] = enc.Fun(params, rets[0].value, henv, {k: enc.const_value(None, v[1].value) if isinstance(v[1], ast.Constant) and isinstance(v[1].value, (int, bool)) else None
-                                                                          for k, v in dfl.items()})
+                                                                          for k, v in dfl.items()},
+                                          npos=len(pos), nposonly=len(a.posonlyargs), vararg=a.vararg.arg if a.vararg else None, kwarg=a.kwarg.arg if a.kwarg else None)
         if isinstance(node, ast.Assign) and isinstance(node.value, ast.Constant) and type(node.value.value) is int and isinstance(node.targets[0], ast.Name) and node.targets[0].id in names:
             henv[node.targets[0].id] = enc.const_value(None, node.value.value)   # a module constant a helper refers to
         if isinstance(node, ast.Assign) and isinstance(node.value, ast.Lambda) and isinstance(node.targets[0], ast.Name) and node.targets[0].id in names:
